@@ -21,7 +21,7 @@ from ..refports import NODEFAULT
 from ..vloop import VLoop
 
 ID = 'C12'
-VALUES = (1, 'a', -1)
+VALUES = (1, 'a', -1, '')  # '' = a falsy value of the wrong type for int ports and int-typed namespaces
 FINALS = (('ret', None), ('ret', 5), ('unsucc', 3))
 FINAL_RESULT = {('ret', None): (None, True), ('ret', 5): (5, True), ('unsucc', 3): (3, False)}
 
@@ -163,6 +163,7 @@ def run_case(desc: tuple, emissions: tuple, final: tuple, loop: VLoop) -> List[d
         violations.append({'clause': clause, 'features': feats, 'detail': detail,
                            'case': {'spec': desc, 'emissions': emissions, 'final': final}})
 
+    loop.ticks = 0  # the loop is shared by all cases of a spec; the horizon is per case
     proc = Proc(pid='c12', loop=loop)
     rec = Recorder()
     proc.add_process_listener(rec)
